@@ -130,7 +130,7 @@ def count(ctx, trace):
                 ctx.cov['per_op'][name] = ctx.cov['per_op'].get(name, 0) + 1
             elif op == 'rt':
                 nrt += 1
-            elif op in ('ret', 'panic', 'timeout') and name:
+            elif op in ('ret', 'panic', 'hang') and name:
                 k = '%s:%s' % (name, nrt if nrt < 4 else '4+')
                 steps[k] = steps.get(k, 0) + 1
                 if op != 'ret':
@@ -165,7 +165,7 @@ def canary_trace(ctx, traces):
         hdr, scen = vlib.split_scenarios(t)
         for s in scen:
             ev = [json.loads(l) for l in s]
-            if any(e['op'] in ('panic', 'timeout') for e in ev):
+            if any(e['op'] in ('panic', 'hang') for e in ev):
                 continue
             if len(ev) >= 4 and ev[1].get('name') == 'Repositories' and ev[-1]['op'] == 'ret' and ev[-1]['ok'] and ev[-1]['n'] > 0 and 'list' not in picks:
                 picks['list'] = s
@@ -234,7 +234,7 @@ def corrupt_clause(ctx, quick):
     td = ctx.sub('traces-corrupt')
     t0 = os.path.join(td, 'tlc-reads.ndjson')
     res = run_faults(ctx, vh, t0, scen=write_scen(ctx, scen, 'reads.jsonl'))
-    if res['scenarios'] != len(scen) and res.get('timeouts', 0) < 5:
+    if res['scenarios'] != len(scen) and not res.get('stopped'):
         raise vlib.Machinery('harness executed %d of %d read scripts' % (res['scenarios'], len(scen)))
     t1 = os.path.join(td, 'rand-reads.ndjson')
     run_faults(ctx, vh, t1, n=5000 if quick else 150000, seed=ctx.seed * 1000 + 7, only=READS)
@@ -266,10 +266,13 @@ def run(ctx):
                        + ('AlwaysReturns as RankDecreases (every step lowers a rank) + no deadlock before the end' if quick else 'AlwaysReturns (temporal, weak fairness)')
                        + ', ProgressPerRequest, NoRequestAfterTransportError, NoPanicState, CorruptNeverCleanEOF, no stuck state', 1500)
         # 2. the response scripts, exported by TLC
+        fu = ex.submit(export, ctx, 'OciClientFaultsMC_export_uperr.cfg',
+                       'upload operations (POST, PATCH, PUT, status GET, mount) x well-formed OCI error bodies of all 15 standard codes x {status of the code, 500}, '
+                       'each followed by one more call on the writer')
         if quick:
-            fe = [ex.submit(export, ctx, 'OciClientFaultsMC_export_quick.cfg', 'all operation families, thinned alphabets')]
+            fe = [fu, ex.submit(export, ctx, 'OciClientFaultsMC_export_quick.cfg', 'all operation families, thinned alphabets')]
         else:
-            fe = [ex.submit(export, ctx, 'OciClientFaultsMC_x%s.cfg' % f, 'family %s, alphabets thinned after the first response' % f) for f in FAMILIES]
+            fe = [fu] + [ex.submit(export, ctx, 'OciClientFaultsMC_x%s.cfg' % f, 'family %s, alphabets thinned after the first response' % f) for f in FAMILIES]
         fc = []
         if not quick:
             fc = [ex.submit(canary_model, ctx, 'OciClientFaultsMC_f4.cfg', 'NoPanicState',
@@ -291,7 +294,7 @@ def run(ctx):
     traces = []
     t0 = os.path.join(td, 'tlc-scripts.ndjson')
     res = run_faults(ctx, vh, t0, scen=write_scen(ctx, scen, 'scripts.jsonl'))
-    if res['scenarios'] != len(scen) and res.get('timeouts', 0) < 5:
+    if res['scenarios'] != len(scen) and not res.get('stopped'):
         raise vlib.Machinery('harness executed %d of %d scripts' % (res['scenarios'], len(scen)))
     traces.append(t0)
     nrand = 2500 if quick else 40000
@@ -319,7 +322,10 @@ def run(ctx):
                         'followed or reach the client as the final response, and does not bound the hops (net/http does)',
                         'header/body values the classes do not interpret (class "rand": arbitrary bytes) leave the target of the next request, or whether a '
                         'listing body decodes to no entries, open in the specification',
-                        'numbers are logged clamped to +-2^30 (TLC integers); the watchdog is 20 s per call',
+                        'numbers are logged clamped to +-2^30 (TLC integers)',
+                        'hang observer: the scripted transport never blocks and a correct call takes milliseconds, so a call that has not returned after 15 s of wall time '
+                        '(chosen for a machine at load 100+) is logged as {"op":"hang"}, its goroutine is left behind and the next scenario gets a fresh client; '
+                        'the harness stops after 4 hangs (what is recorded suffices for the verdict)',
                         'the constants 128 KiB (in-memory threshold), 8 KiB (error body limit), 64 KiB (default chunk) are unexported in ociclient and '
                         'mirrored in the harness header',
                         'TLC and the Json/IOUtils community modules']
@@ -327,7 +333,7 @@ def run(ctx):
                        'machine sends next (method, path class, n/last/digest query, Range/Content-Range numbers, Content-Length, target of the last Location/Link), '
                        'each response moves the machine as its class says, an error response may cost at most 8 KiB+1 body bytes, no request follows a transport '
                        'failure (so a script of n responses is asked at most n+1 times), and the outcome (ok/error, items delivered, bytes written, descriptor, '
-                       'bytes read and clean-EOF or error) must be the machine\'s; a panic or a watchdog timeout has no step')
+                       'bytes read and clean-EOF or error) must be the machine\'s; a panic or a hang (no return within the watchdog period) has no step')
 
 
 def replay(ctx, path):
